@@ -58,11 +58,18 @@ struct HGuard
 #  define RLBOX_EMBEDDER_PROVIDES_TLS_STATIC_VARIABLES
 #  define VM_EMBEDDER_TLS
 #endif
-#if defined(BK_NOOP)
+#if defined(BK_DYLIB)
+// the bundled dylib backend with a statically linked "guest" (static calls), like the no-op one
+#  define BK_NOOP
+#  define harness_static_lookup(func_name) reinterpret_cast<void*>(&func_name)
+#  define RLBOX_USE_STATIC_CALLS() harness_static_lookup
+#elif defined(BK_NOOP)
 #  define RLBOX_USE_STATIC_CALLS() rlbox_noop_sandbox_lookup_symbol
 #endif
 #include "rlbox.hpp"
-#if defined(BK_NOOP)
+#if defined(BK_DYLIB)
+#  include "rlbox_dylib_sandbox.hpp"
+#elif defined(BK_NOOP)
 #  include "rlbox_noop_sandbox.hpp"
 #else
 #  include "vm_sandbox.hpp"
@@ -77,14 +84,18 @@ struct HGuard
 #include <unistd.h>
 
 using namespace rlbox;
-#if defined(BK_NOOP)
+#if defined(BK_DYLIB)
+using Sbx = rlbox_dylib_sandbox;
+#elif defined(BK_NOOP)
 using Sbx = rlbox_noop_sandbox;
 #else
 using Sbx = rlbox_vm_sandbox<vm_abi_wasm32, 12, true, 4>;
 #endif
 using RS = rlbox_sandbox<Sbx>;
 #if defined(TLS_EMBEDDER)
-#  if defined(BK_NOOP)
+#  if defined(BK_DYLIB)
+RLBOX_DYLIB_SANDBOX_STATIC_VARIABLES();
+#  elif defined(BK_NOOP)
 RLBOX_NOOP_SANDBOX_STATIC_VARIABLES();
 #  else
 static thread_local vm_thread_data<Sbx> g_vm_tls;
@@ -100,6 +111,7 @@ vm_thread_data<Sbx>* vm_get_thread_data<Sbx>()
 
 static tr::Out out;
 static const int MAXT = 16;
+static const char* g_dylib_path = "";
 
 // ---------------------------------------------------------------- scheduler
 struct Pending
@@ -299,7 +311,12 @@ static void worker_main(int t, int rounds)
         if (o == "create") {
 #if defined(BK_NOOP)
           // the backend has no creation / destruction of its own: reported around the calls
+#  if defined(BK_DYLIB)
+          sb.create_sandbox(g_dylib_path); // (the library is only a handle here: calls are static)
+          res = "ok";
+#  else
           res = sb.create_sandbox() ? "ok" : "false";
+#  endif
 #else
           res = sb.create_sandbox(&g_libs[t]) ? "ok" : "false";
 #endif
@@ -375,6 +392,9 @@ int main(int argc, char** argv)
     return 2;
   }
   std::ifstream in(argv[1]);
+  if (argc > 3) {
+    g_dylib_path = argv[3];
+  }
   if (!in || !out.open(argv[2])) {
     return 2;
   }
@@ -412,7 +432,11 @@ int main(int argc, char** argv)
       }
       e.raw("threads", ts + "]").num("scheduled", (long long)sched.size());
 #if defined(BK_NOOP)
+#  if defined(BK_DYLIB)
+      e.boolean("allready", true).str("backend", "dylib");
+#  else
       e.boolean("allready", true).str("backend", "noop");
+#  endif
 #else
       e.boolean("allready", false).str("backend", "vm");
 #endif
